@@ -49,7 +49,7 @@ PROPS = {
         trusted=CODEC_TRUST,
     ),
     "C05": dict(
-        domains=[("stream", "read", 6000, 80000), ("stream", "exhaustive", 1500, 6000)],
+        domains=[("stream", "read", 6000, 80000), ("stream", "exhaustive", 1500, 6000), ("conn", "serve", 400, 4000), ("conn", "cnall4", 1, 1)],
         relevant=["C05:"],
         theorems=["DV.Props.C05."+t for t in ["C05_split","C05_frag","C05_one","C05_eof","C05_in_header","C05_by_length","C05_gen"]],
         gen_obligations=["Gen.HeaderLength","Gen.MessageBufferLength"],
